@@ -3,6 +3,7 @@ mod colors;
 mod macro_cases;
 mod macrotick;
 mod filegen;
+mod geomops;
 mod mathops;
 mod textgen;
 mod rnggen;
@@ -28,6 +29,12 @@ fn main() {
         "text" => textgen::emit(seed, n, a.get(4).map(|s| s.as_str()).unwrap_or("")),
         "file" => filegen::emit(seed, n, a.get(4).map(|s| s.as_str()).unwrap_or("/tmp/vh_files"), a.get(5).and_then(|s| s.parse().ok()).unwrap_or(300)),
         "macros" => macrotick::emit(seed, n),
+        "geom" => {
+            let lo: i64 = a.get(4).and_then(|s| s.parse().ok()).unwrap_or(0);
+            let hi: i64 = a.get(5).and_then(|s| s.parse().ok()).unwrap_or(1000);
+            geomops::emit(seed, n, lo, hi)
+        }
+        "geomops" => for o in geomops::OPS { println!("{} {}", o.0, o.1); },
         "mathone" => {
             let op: i64 = a[2].parse().unwrap();
             let args: Vec<f64> = a[3..].iter().map(|s| s.parse().unwrap()).collect();
